@@ -12,7 +12,7 @@ def _r(test, q, t, qs=4, ts=16, race=False, qt=900, tt=3000, **kw):
 from checks_agents import AGENT_CHECKS  # noqa: E402
 
 NOT_APPLICABLE = {}
-HOOK_COMMITS = []
+HOOK_COMMITS = ["verif: scheduling/trace hook points in the ListObjects pipeline cycle-group code (no-ops without the verif build tag)"]
 
 CHECKS = {
     "C01": {
@@ -143,6 +143,37 @@ CHECKS = {
         "technique": "property-based testing (rapid), liveness-by-timeout + resource census oracle with deterministic cancellation triggers",
         "assumptions": ["a time budget hit between deadline+1s and deadline+5s is inconclusive, beyond that a violation",
                         "goroutine census counts stacks with github.com/openfga/openfga frames; process-wide servers form the baseline"],
+    },
+    "C21": {
+        "runs": [_r("TestC21", 1500, 60000, race=True, qt=1800, tt=7000)],
+        "rule": "case = cyclic model family (self-recursive userset, two- and three-type userset rings, recursive TTU, userset+TTU mix, computed relation "
+                "inside the cycle; optionally an intersection/exclusion on top of the cycle), generated tuples over 5 (thorough 8) ids per type, a user, "
+                "pipeline tuning (chunk 1/2/3/100, buffer 1/2/4/128, numProcs 1-4, read concurrency), GOMAXPROCS in {1,2,4,16} and schedule bytes that choose "
+                "at every hook point of the cycle-group code (verif build tag: StatusPool inc/dec/quiescence/set, SignalReady, Sleep, Wake, allready, "
+                "cleanup) between nothing, 1-3 Gosched and a 20-200us sleep; the request runs 1-3 times. Oracle: the call returns within the hang limit "
+                "(teardown completes), the output equals the reference set, and the recorded event trace satisfies: counter never negative, no increment "
+                "after a pool's quiescence latch closed, no cleanup before a quiescence event, every member that signalled ready cleans up exactly once, "
+                "leader before followers. Non-trivial: >= 2 cycle members were torn down and >= 2 objects are derivable only through cyclic tuples. "
+                "Distinct: hash of the case.",
+        "level_text": "exploration: sampled (perturbed) real schedules of the whole pipeline on cyclic models with trace predicates over hook events; "
+                      "interleavings are not enumerated",
+        "technique": "property-based testing (rapid) with hook-driven schedule perturbation, reference-set oracle + event-trace invariants",
+        "assumptions": ["hooks are compiled in with -tags verif (internal/verifhook)", "models without conditions; memory datastore",
+                        "schedules are perturbed, not owned: the protocol-level exhaustive tier described in DESIGN.md was not built"],
+    },
+    "C11": {
+        "runs": [_r("TestC11", 200, 6000, qs=8, qt=1800, tt=7000)],
+        "rule": "server with the cache controller (minimum interval 0) and exactly one of {query cache, iterator caches (TTL 1h or 150 ms)}, engine drawn; "
+                "1-4 rounds of: cached Check (+ListObjects) to populate, optionally a sleep past the iterator TTL, a write/delete chosen to flip the answer "
+                "(sometimes plus a bulk write of 60 tuples = more than one changelog page), await until invalidation runs that read the write have "
+                "completed (observed through the changelog cache entry: three distinct LastChecked values with LastModified >= the write; runs are "
+                "serialised per store), then the same and all earlier requests again, cached. Oracle: after the await every cached answer equals the "
+                "reference for the current state; rounds without a write answer exactly per the reference. Non-trivial: the write flipped the reference "
+                "answer of a request answered before it. Distinct: hash of the case.",
+        "level_text": "exploration with the real clock: invalidation completion is observed, not assumed; TTL-window straddling is sampled at two TTL settings",
+        "technique": "property-based testing (rapid), stateful history vs reference model + reference semantics, completion of invalidation observed through the shared cache",
+        "assumptions": ["real clock (no add-only way to virtualise time.Now in the controller): an await that does not complete in 3 s makes the case inconclusive",
+                        "the completion of a run is inferred from the changelog cache entry it writes (no hook)"],
     },
     "C05": {
         "runs": [_r("TestC05", 3000, 160000)],
